@@ -169,6 +169,12 @@ def bindKeys (ll : LL) (tail : List Obj) : Except BindErr (List (String × Obj))
 
 def bindAux (ps : List Param) : List (String × Obj) := ps.map (fun p => (p.name, p.default))
 
+/-- the `&rest` parameter (when there is one) gets the whole tail as a list -/
+def bindRest (rest : Option String) (tail : List Obj) : List (String × Obj) :=
+  match rest with
+  | some r => [(r, Obj.ofList tail)]
+  | none => []
+
 /-- bindings, in lambda-list order: required, optional, rest, key, aux -/
 def bind (ll : LL) (args : List Obj) : Except BindErr (List (String × Obj)) :=
   if args.length < ll.req.length then .error .tooFew
@@ -177,9 +183,7 @@ def bind (ll : LL) (args : List Obj) : Except BindErr (List (String × Obj)) :=
     if !ll.rest.isSome && !ll.hasKey && ll.npos < args.length then .error .tooMany
     else
       let front := ll.req.zip args ++ bindOpt ll.opt (args.drop ll.req.length)
-      let restB := match ll.rest with
-        | some r => [(r, Obj.ofList tail)]
-        | none => []
+      let restB := bindRest ll.rest tail
       if ll.hasKey then
         match bindKeys ll tail with
         | .error e => .error e
